@@ -116,10 +116,10 @@ PROPS = {
     },
     "C14": {
         "quick_runs": 32000, "thorough_runs": 500000, "seed": 14000001,
-        "rule": "C14 histories: 2-5 parties (tasks / OS threads) x stop_source copy/move/copy-assign/swap/destroy, token checks, "
+        "rule": "C14 histories: 2-5 parties (tasks / OS threads) x stop_source copy/move/copy-assign/move-assign (also between sources of one state, also onto itself)/swap/destroy, token checks, "
                 "stop_callback construct (before/after stop) and destroy (other thread, inside own callback, inside another "
                 "callback), racing request_stop over two stop states; one sub-workload uses plain OS threads only.",
-        "required_probes": ["request_stop.won", "request_stop.lost", "cb.ran_in_constructor", "cb.destroy_self", "cb.dtor_waited_for_running_callback"],
+        "required_probes": ["request_stop.won", "request_stop.lost", "cb.ran_in_constructor", "cb.destroy_self", "cb.dtor_waited_for_running_callback", "src.move_assign_same_state", "src.self_move_assign"],
     },
     "C03": {
         "quick_runs": 60000, "thorough_runs": 1500000, "seed": 3000001, "chunk": 4096,
